@@ -454,7 +454,7 @@ func runChain(r *ev.Run, ci int, chain []state, onlySave, onlyK int) {
 					verdict = "truncated-empty"
 				case got.Cert != old.Cert && got.Cert != neu.Cert:
 					verdict = "partial-yaml:certificate-lost"
-				case old.Key != "" && got.Key != old.Key && got.Key != neu.Key:
+				case got.Key != old.Key && got.Key != neu.Key: // (the reader never leaves the key empty: it generates one)
 					verdict = "partial-yaml:privkey-lost"
 				case !tunnelsEqual(got.Tunnels, old.Tunnels) && !tunnelsEqual(got.Tunnels, neu.Tunnels):
 					verdict = "partial-yaml:tunnels-lost"
